@@ -601,7 +601,7 @@ func (c *VirtualTable) Insert(ctx context.Context, values map[int]interface{}) (
 		return 0, ErrS3DBConstraintPrimaryKey
 	}
 	for i, col := range c.schema.Columns {
-		if col.NotNull && i != c.KeyCol && values[i] == nil {
+		if col.NotNull && (c.usesRowID || i != c.KeyCol) && values[i+c.rowIDOffset()] == nil {
 			return 0, ErrS3DBConstraintNotNull
 		}
 	}
@@ -625,6 +625,15 @@ func (c *VirtualTable) Insert(ctx context.Context, values map[int]interface{}) (
 	return 0, nil
 }
 
+// rowIDOffset is the position of the first declared column in SQLite's
+// numbering: a table without a primary key has the hidden _rowid_ in front.
+func (c *VirtualTable) rowIDOffset() int {
+	if c.usesRowID {
+		return 1
+	}
+	return 0
+}
+
 func (c *VirtualTable) Update(ctx context.Context, key interface{}, values map[int]interface{}) error {
 	dbg("UPDATE ")
 	if key == nil {
@@ -644,8 +653,8 @@ func (c *VirtualTable) Update(ctx context.Context, key interface{}, values map[i
 	if !ok || old.Deleted {
 		return nil
 	}
-	for i, v := range values {
-		if v == nil && i != c.KeyCol && c.schema.Columns[i].NotNull {
+	for i, col := range c.schema.Columns {
+		if v, assigned := values[i+c.rowIDOffset()]; assigned && v == nil && col.NotNull && (c.usesRowID || i != c.KeyCol) {
 			return ErrS3DBConstraintNotNull
 		}
 	}
